@@ -52,7 +52,7 @@ func e2eLifeWorker(args []string) error {
 	// forced schedules: a second Shutdown of the same connection is provoked from another goroutine after the first
 	// one has completed, while the node is held before its exit
 	forced := func(kind string) error {
-		cfg := agent.Cfg{N4Addr: p.N4Addr, Datapath: "bess", LogLevel: "error", ReadTimeout: 30, RespTimeout: "40ms", MaxReqRetries: 1,
+		cfg := agent.Cfg{N4Addr: p.N4Addr, Datapath: "bess", LogLevel: "warn", ReadTimeout: 30, RespTimeout: "40ms", MaxReqRetries: 1,
 			HBTimer: kind == "hbdead-vs-stop", HBInterval: "70ms"}
 
 		w, err := e2e.NewWorld(filepath.Join(p.Dir, "forced-"+kind), p.AgentBin, p.Trace, cfg, int(p.Seed%1000)*1000+900)
@@ -132,7 +132,7 @@ func e2eLifeWorker(args []string) error {
 
 	for run := 0; run < p.Runs; run++ {
 		hb := rng.Intn(2) == 0
-		cfg := agent.Cfg{N4Addr: p.N4Addr, Datapath: "bess", LogLevel: "error", ReadTimeout: 1 + rng.Intn(2), RespTimeout: "40ms", MaxReqRetries: 1,
+		cfg := agent.Cfg{N4Addr: p.N4Addr, Datapath: "bess", LogLevel: "warn", ReadTimeout: 1 + rng.Intn(2), RespTimeout: "40ms", MaxReqRetries: 1,
 			HBTimer: hb, HBInterval: "70ms", UEIPAlloc: true, UEPool: "10.250.0.0/24"}
 		if p.Race {
 			cfg.Env = []string{"GORACE=halt_on_error=0"}
